@@ -13,7 +13,7 @@ for p in pkgs:
     target = p if p.startswith('./') else './' + p.rstrip('/')
     if p.startswith('pkg/networkextention'):
         mod = REPO + '/pkg/networkextention'; target = './...'
-    pr = subprocess.run(['go', 'test', '-json', '-vet=off', '-count=1', '-timeout', '25m', target], cwd=mod, env=env,
+    pr = subprocess.run(['go', 'test', '-p', os.environ.get('BASECHECK_P', '16'), '-json', '-vet=off', '-count=1', '-timeout', '25m', target], cwd=mod, env=env,
                         capture_output=True, text=True)
     res = {}
     for line in pr.stdout.splitlines():
